@@ -39,6 +39,10 @@ CHECKS = {
          "Schemas (type x 0-4 constraints from every constructor, nested to depth 2, via s:deftype and s:make-validator) are built in a real runtime and applied to values aimed at every comparison/length constant, pattern, key set and container emptiness; the model returns the set of documented outcomes (accept / wrong-type / failed-constraint) and the real verdict must lie in it; every 5th case plants one malformation that must be refused with bad-arguments at construction and never yield a silent pass; every map is also validated as string-keyed, symbol-keyed and JSON round-tripped twin.",
          "Trusts harness/c14x as the documented meaning (libschema README + docstrings); cases the docs do not decide are not judged (notes/NOTES-C14.md), in particular the strings \"true\"/\"false\" against s:bool/s:is-true/s:is-false, which the repository's own tests pin as accepted.",
          "DESIGN.md 4/C14"),
+ "C16": ("exploration", "metamorphic twin execution of the real formatter (format vs format-of-format, input vs output) judged by an oracle built only on the strict reader and the public lexer token stream",
+         "Source texts (all repo .lisp files, random token trees with comments/blank lines/tabs/CRLF in every gap incl. inside prefix forms and before closing brackets, every literal spelling and bracket kind, 16 token-level mutations) are formatted under the CLI default config, random indent/blank-line/rules configs, compact+strip, and strip or compact alone; strict parses of input and output must be identical node by node, an independently read token tree must match in spellings and bracket kinds, every comment must survive in order anchored to the same tree path, Format(Format(x)) must equal Format(x) byte for byte, and rejected input must yield an error and zero bytes.",
+         "The documented re-sugaring of #' / #^ and hoisting of comments out of a prefix gap are treated as allowed normalisations; layout is judged only through idempotence; violations are shrunk and keyed by the minimised input's class (notes/NOTES-C16.md).",
+         "DESIGN.md 4/C16"),
 }
 
 ALL = ["C%02d" % i for i in range(1, 21)]
